@@ -1,6 +1,7 @@
 //! rvh — the verification harness for al8n/rarena. Drives the real code and logs; never judges.
 mod common;
 mod conc;
+mod flushd;
 mod handles;
 mod openf;
 mod probe;
@@ -18,6 +19,7 @@ fn main() {
     "open" => openf::run(&args[2..]),
     "probe" => probe::run(&args[2..]),
     "handles" => handles::run(&args[2..]),
+    "flush" => flushd::run(&args[2..]),
     other => {
       eprintln!("unknown subcommand {other}");
       std::process::exit(2);
